@@ -158,12 +158,15 @@ class MessageSigner(object):
         if x >= self._generator.p():
             raise EncodingError("no curve point for this recovery id")
         y_parity = recid & 1
-        pairs = self._generator.possible_public_pairs_for_signature(
-            msg_hash, (x, s), y_parity=y_parity
-        )
-        if len(pairs) == 0 or pairs[0] == self._generator.infinity():
+        try:
+            nonce_point = self._generator.points_for_x(x)[y_parity]
+        except ValueError:
+            raise EncodingError("no curve point for this recovery id")
+        # Q = r^-1 (s R - z G)
+        inv_r = self._generator.inverse(r)
+        q = (s * inv_r) * nonce_point + (-(inv_r * msg_hash)) * self._generator
+        if q == self._generator.infinity():
             raise EncodingError("no public key can be recovered")
-        q = pairs[0]
         return q, is_compressed
 
     def pair_matches_key(self, pair: Any, key: Any, is_compressed: bool) -> bool:
